@@ -85,6 +85,8 @@ class Run:
         self.last_model = None
         self.cwd0 = os.getcwd()
         self._pre = self._prev = None
+        self.sched_digests = set()
+        self.build_no = 0
         for m in sc.get('init', []):
             self.sb.apply_mutation(m)
 
@@ -198,12 +200,16 @@ class Run:
         """Run FileBuilder.build_versioned for ``step``; return Outcome."""
         sb = self.sb
         sim = self.sim
+        if step.get('sched') is not None:
+            from .sched import Scheduler
+            sched = Scheduler(step['sched'])
         sim.reset(sandbox=sb, listdir_seed=self.cfg.get('listdir_seed'),
                   fault=fault, sched=sched,
                   log_io=self.opts.get('log_io', False))
         versions = step.get('versions', {})
         it = Interp(self.sc, sb, 'real', versions, crash_at=crash_at,
                     file_comparison=self.fb.FileComparison, sched=sched)
+        it.build_no = self.build_no
         it.stmt_hook = self.opts.get('stmt_hook')
         if self.cfg.get('foreign_live') and self._pre is not None:
             it.stmt_hook = self.foreign_hook(self._pre, self._prev)
@@ -227,8 +233,26 @@ class Run:
             out.exc = type(e).__name__
             out.exc_obj = e
             out.tb = traceback.format_exc()
+        except BaseException as e:
+            if type(e).__name__ != 'SimDeadlock':
+                raise
+            out.kind = 'exc'
+            out.exc = 'SimDeadlock'
+            out.exc_obj = e
+            out.tb = traceback.format_exc()
         finally:
             sim.phase = 'idle'
+            sim.sched = None
+        out.sched = sched
+        if sched is not None:
+            st_ = self.stats.setdefault('schedules', {})
+            for k, v in sched.digest_input().items():
+                st_[k] = st_.get(k, 0) + v if k != 'threads' else max(
+                    st_.get(k, 0), v)
+            st_['builds_with_threads'] = st_.get(
+                'builds_with_threads', 0) + (1 if sched.max_threads > 1
+                                             else 0)
+            self.sched_digests.add(digest(sched.choices, 10))
         out.order = list(it.order)
         out.n_opp = it.opp
         out.n_mut = sim.n_mut
@@ -247,6 +271,7 @@ class Run:
         mb = ModelBuild(Tree(pre, sb.base), prev, sb.cache, sb.base, sb.w, versions,
                         name, sb.clock.now, serve=serve, hints=hints)
         it = Interp(self.sc, sb, 'model', versions, model_build=mb)
+        it.build_no = self.build_no
         body = self.sc['roots'][step.get('root', 0)]
         out = Outcome()
         try:
@@ -267,6 +292,7 @@ class Run:
     def build_step(self, i, step):
         sb = self.sb
         sb.clock.advance(step.get('tick', 1))
+        self.build_no = i
         pre = sb.snapshot()
         prev, cache_node = self.prev_record(pre)
         if cache_node is not None and prev is None:
@@ -289,7 +315,12 @@ class Run:
         self.last_outcome = real
         real.tree_sig = tree_sig(post, sb, sb.cache)
         self.log.append(['build', i, real.kind, real.exc, real.order,
-                         digest(real.value), real.tree_sig])
+                         digest(real.value), real.tree_sig,
+                         digest(real.sched.choices) if real.sched else None])
+        if real.exc == 'SimDeadlock':
+            raise Violation(['C09'], 'O-thread', 'deadlock',
+                            {'waiting': real.sched.deadlock,
+                             'tb': real.tb[-1500:]}, i)
         ctx = {'step': step, 'pre': pre, 'post': post, 'prev': prev,
                'real': real}
         if crash_at is not None or inj is not None:
@@ -770,6 +801,17 @@ class Run:
             else:
                 doc = {'software': 'file_builder', 'cacheFileVersion': None}
             new = _gz.compress(_json.dumps(doc).encode())
+        elif how.startswith('gz-drop:') or how == 'clean-gz-drop':
+            doc = _json.loads(_gz.decompress(data).decode())
+            keys = ['createdDirs', 'rootOperations', 'buildName',
+                    'funcVersions', 'operationVersions', 'cacheFileVersion']
+            key = how.split(':')[1] if ':' in how else keys[arg % len(keys)]
+            doc.pop(key, None)
+            new = _gz.compress(_json.dumps(doc).encode())
+        elif how == 'gz-null':
+            new = _gz.compress(b'null')
+        elif how == 'gz-string':
+            new = _gz.compress(b'"file_builder"')
         elif how in ('not-gzip', 'clean-not-gzip'):
             new = b'{"software": "file_builder"}'
         if new is not None:
@@ -823,7 +865,9 @@ class Run:
             expect = 'IsADirectoryError'
         elif how.startswith(('trunc', 'gz-', 'not-gzip', 'clean-trunc',
                              'clean-not-gzip')):
-            expect = 'RuntimeError' if how != 'gz-missing-keys' else None
+            expect = 'RuntimeError'
+            if how == 'gz-missing-keys' or 'drop' in how:
+                expect = None       # any exception, before any effect
         self.sim.reset(sandbox=sb, listdir_seed=self.cfg.get('listdir_seed'))
         self.sim.phase = 'clean'
         exc = None
